@@ -5,7 +5,7 @@ from pyvc import native
 A = "src/alignment_processor.py:"
 IV = "tuple[int,int]"
 IVS = "list[tuple[int,int]]"
-CLASS_HOME = {"AlignmentCollector": "src/alignment_processor.py", "AbstractAlignmentStorage": "src/alignment_processor.py",
+CLASS_HOME = {"BAMAlignmentStorage": "src/alignment_processor.py", "AlignmentCollector": "src/alignment_processor.py", "AbstractAlignmentStorage": "src/alignment_processor.py",
               "InMemoryAlignmentStorage": "src/alignment_processor.py", "BAMAlignmentStorage": "src/alignment_processor.py"}
 
 record("Storage", {"coverage_dict": "defaultdict[int,int,0]", "region": "opt[tuple[int,int]]", "n_reads": "int"})
@@ -317,6 +317,32 @@ contract(A + "InMemoryAlignmentStorage.reset", {"self": "rec:InMemoryAlignmentSt
          canary="self.counter == old(self.counter)")
 
 
+record("BAMAlignmentStorage", {"coverage_dict": "defaultdict[int,int,0]", "region": "opt[tuple[int,int]]", "bam_merger": "any", "counter": "int"})
+contract(A + "AbstractAlignmentStorage.reset#bam", {"self": "rec:BAMAlignmentStorage"}, returns="none", props=["C05"],
+         modifies=["self.coverage_dict", "self.region"], transparent=True, native=False,
+         ensures=["len(self.coverage_dict) == 0", "self.region is None"])
+contract(A + "BAMAlignmentStorage.reset", {"self": "rec:BAMAlignmentStorage"}, returns="none", props=["C05"],
+         modifies=["self.coverage_dict", "self.region", "self.counter"], native=False,
+         bind={"call:reset": A + "AbstractAlignmentStorage.reset#bam"},
+         ensures=["len(self.coverage_dict) == 0", "self.region is None", "self.counter == 0"], canary="self.counter == old(self.counter)")
+contract(A + "AbstractAlignmentStorage.add_alignment#bam", {"self": "rec:BAMAlignmentStorage", "bam_index": "int", "alignment": "rec:Aligned"},
+         returns="none", props=["C05"], modifies=["self.coverage_dict", "self.region"], native=False,
+         requires=["0 <= alignment.reference_start < alignment.reference_end"],
+         ensures=["self.region == ((alignment.reference_start, alignment.reference_end - 1) if old(self.region) is None else "
+                  "(min(old(self.region)[0], alignment.reference_start), max(old(self.region)[1], alignment.reference_end - 1)))"],
+         loops={0: {"inv": ["self.region == old(self.region)"]}})
+contract(A + "BAMAlignmentStorage.add_alignment", {"self": "rec:BAMAlignmentStorage", "bam_index": "int", "alignment": "rec:Aligned"},
+         returns="none", props=["C05"], modifies=["self.coverage_dict", "self.region", "self.counter"], native=False,
+         bind={"call:add_alignment": A + "AbstractAlignmentStorage.add_alignment#bam"},
+         requires=["0 <= alignment.reference_start < alignment.reference_end"],
+         # the low-memory storage keeps only the hull region (re-fetched from the BAM later) and the number of reads seen
+         ensures=["self.counter == old(self.counter) + 1",
+                  "self.region == ((alignment.reference_start, alignment.reference_end - 1) if old(self.region) is None else "
+                  "(min(old(self.region)[0], alignment.reference_start), max(old(self.region)[1], alignment.reference_end - 1)))"])
+contract(A + "BAMAlignmentStorage.get_read_count", {"self": "rec:BAMAlignmentStorage"}, returns="int", props=["C05"], native=False,
+         transparent=True, ensures=["result == self.counter"])
+
+
 def _mem_args(argmap):
     ap = native.repo_import("src/alignment_processor.py")
     s = argmap["self"]
@@ -433,7 +459,7 @@ def replay_index(d):
     return (not p), "seed %s: %s" % (d["inputs"]["seed"], p or "index ok")
 
 
-@bounded("C05.inmemory_index", ["C05"], note="real InMemoryAlignmentStorage: add_alignment in start order then fill_index must establish "
+@bounded("C05.inmemory_index", ["C05"], shards=8, note="real InMemoryAlignmentStorage: add_alignment in start order then fill_index must establish "
          "index_ok (the contract get_alignments relies on), and get_alignments of random sub-regions must return exactly the overlapping "
          "reads; after reset() and a second cluster starting right behind the first, the reused storage must answer like a fresh one; "
          "bound: N random storages of <= 9 reads with bin-boundary-heavy coordinates")
